@@ -7,7 +7,7 @@
    (SelectionFieldsIter); [la_field]/[la_chain]/[la_exists] = Lookahead::field /
    chains of it / exists; [view_args] = SelectionField::arguments; [param_raw] =
    what get_param_value resolves for a resolver parameter; [collect_list frags
-   impls n st rt sels] = the fields Fields::add_set turns into resolver calls
+   cond n st rt sels] = the fields Fields::add_set turns into resolver calls
    for a root of static type st and runtime type rt.  All statements hold for
    every document, fragment table, variables, registry.implements table and
    every fuel at which the functions involved return Ok. *)
@@ -17,9 +17,9 @@ From AG Require Import Lookahead LookaheadProofs.
    everything collected beneath F is, in order, a subsequence of F's selection
    view; look_ahead().field(name) finds it and exists(); the arguments the view
    shows for it are the parameters its resolver is given. *)
-Theorem C22_complete : forall vars vdefs frags impls F n st rt c,
+Theorem C22_complete : forall vars vdefs frags cond F n st rt c,
   let frags' := prune_frags vars frags in
-  collect_list frags' impls n st rt (f_sels F) = Ok c ->
+  collect_list frags' cond n st rt (f_sels F) = Ok c ->
   (forall m v, flat_list frags' m (f_sels F) = Ok v -> sublist c v) /\
   (forall g, In g c ->
      (forall m r, la_field frags' m (f_name g) [F] = Ok r -> In g r /\ la_exists r = true) /\
@@ -28,28 +28,28 @@ Theorem C22_complete : forall vars vdefs frags impls F n st rt c,
 Proof. exact c22_complete. Qed.
 
 (* the two halves for an arbitrary fragment table *)
-Theorem C22_resolved_sublist_of_view : forall frags impls n st rt l c,
-  collect_list frags impls n st rt l = Ok c ->
+Theorem C22_resolved_sublist_of_view : forall frags cond n st rt l c,
+  collect_list frags cond n st rt l = Ok c ->
   forall m v, flat_list frags m l = Ok v -> sublist c v.
-Proof. exact (fun frags impls n => proj2 (collect_sub_flat frags impls n)). Qed.
+Proof. exact (fun frags cond n => proj2 (collect_sub_flat frags cond n)). Qed.
 
-Theorem C22_resolved_in_view : forall frags impls n st rt l c g,
-  collect_list frags impls n st rt l = Ok c -> In g c ->
+Theorem C22_resolved_in_view : forall frags cond n st rt l c g,
+  collect_list frags cond n st rt l = Ok c -> In g c ->
   forall m v, flat_list frags m l = Ok v -> In g v.
 Proof.
-  exact (fun frags impls n st rt l c g Hc Hg m v Hv =>
-           sublist_incl _ _ (proj2 (collect_sub_flat frags impls n) st rt l c Hc m v Hv) g Hg).
+  exact (fun frags cond n st rt l c g Hc Hg m v Hv =>
+           sublist_incl _ _ (proj2 (collect_sub_flat frags cond n) st rt l c Hc m v Hv) g Hg).
 Qed.
 
-Theorem C22_lookahead_exists : forall frags impls n st rt F c g,
-  collect_list frags impls n st rt (f_sels F) = Ok c -> In g c ->
+Theorem C22_lookahead_exists : forall frags cond n st rt F c g,
+  collect_list frags cond n st rt (f_sels F) = Ok c -> In g c ->
   forall m fs r, In F fs -> la_field frags m (f_name g) fs = Ok r ->
   In g r /\ la_exists r = true.
 Proof. exact resolved_found_by_lookahead. Qed.
 
 (* look_ahead().field(n1).field(n2)... follows every resolution path *)
-Theorem C22_lookahead_chain : forall frags impls F chain h,
-  rpath frags impls F chain h ->
+Theorem C22_lookahead_chain : forall frags cond F chain h,
+  rpath frags cond F chain h ->
   forall m fs r, In F fs -> la_chain frags m chain fs = Ok r -> In h r /\ la_exists r = true.
 Proof. exact chain_follows_resolution. Qed.
 
@@ -66,10 +66,10 @@ Proof. exact (fun frags n nm => proj2 (filter_total frags n nm)). Qed.
 
 (* the view is a superset only because of type conditions: when every
    condition met applies, the executor resolves exactly the view *)
-Theorem C22_exact_when_conditions_apply : forall frags impls n st rt l,
-  all_apply_list frags impls n st rt l = true ->
-  forall v, flat_list frags n l = Ok v -> collect_list frags impls n st rt l = Ok v.
-Proof. exact (fun frags impls n => proj2 (collect_exact frags impls n)). Qed.
+Theorem C22_exact_when_conditions_apply : forall frags cond n st rt l,
+  all_apply_list frags cond n st rt l = true ->
+  forall v, flat_list frags n l = Ok v -> collect_list frags cond n st rt l = Ok v.
+Proof. exact (fun frags cond n => proj2 (collect_exact frags cond n)). Qed.
 
 (* arguments *)
 Theorem C22_args_equal : forall vars vdefs args l,
@@ -96,10 +96,10 @@ Theorem C22_view_commutes_with_pruning : forall vars frags n l,
   omap (map (prune_field vars)) (spec_fields vars frags n l).
 Proof. exact view_fields_commute. Qed.
 
-Theorem C22_relative_to_pruning : forall vars vdefs frags impls n f,
+Theorem C22_relative_to_pruning : forall vars vdefs frags cond n f,
   view_of vars vdefs (prune_frags vars frags) n (prune_field vars f) = sview_of vars vdefs frags n f /\
-  (forall st rt, collect_list (prune_frags vars frags) impls n st rt (f_sels (prune_field vars f)) =
-                 omap (map (prune_field vars)) (scollect_list vars frags impls n st rt (unskipped vars (f_sels f)))).
+  (forall st rt, collect_list (prune_frags vars frags) cond n st rt (f_sels (prune_field vars f)) =
+                 omap (map (prune_field vars)) (scollect_list vars frags cond n st rt (unskipped vars (f_sels f)))).
 Proof. exact c22_relative_to_pruning. Qed.
 
 (* a field appears in a view only if it is reachable through selections none
@@ -124,31 +124,31 @@ Theorem C22_view_fuel_independent : forall frags n l v,
   flat_list frags n l = Ok v -> forall m v', flat_list frags m l = Ok v' -> v = v'.
 Proof. exact (fun frags n => proj2 (flat_fuel_indep frags n)). Qed.
 
-Theorem C22_collect_fuel_independent : forall frags impls n st rt l v,
-  collect_list frags impls n st rt l = Ok v ->
-  forall m v', collect_list frags impls m st rt l = Ok v' -> v = v'.
-Proof. exact (fun frags impls n => proj2 (collect_fuel_indep frags impls n)). Qed.
+Theorem C22_collect_fuel_independent : forall frags cond n st rt l v,
+  collect_list frags cond n st rt l = Ok v ->
+  forall m v', collect_list frags cond m st rt l = Ok v' -> v = v'.
+Proof. exact (fun frags cond n => proj2 (collect_fuel_indep frags cond n)). Qed.
 
 (* the model's whole invocation tree (the one compared with the recorded tree
    on every case): at every depth, each resolver invoked beneath a resolver is
    listed, with its complete own view, in that resolver's selection view *)
-Theorem C22_model_tree_listed : forall S vars vdefs frags n root sels orc ts,
-  model_roots S vars vdefs frags n root sels orc = Ok ts -> Forall tree_listed ts.
+Theorem C22_model_tree_listed : forall S vars vdefs frags cond n root sels orc ts,
+  model_roots S vars vdefs frags cond n root sels orc = Ok ts -> Forall tree_listed ts.
 Proof. exact model_roots_listed. Qed.
 
 Theorem C22_nonvacuous :
   let F := prune_field ex_vars ex_field in
   let frags' := prune_frags ex_vars ex_frags in
-  collect_list frags' ex_impls 10 20%N 21%N (f_sels F) = Ok [mkF None 12%N [] [] []] /\
+  collect_list frags' (cond_today ex_impls) 10 20%N 21%N (f_sels F) = Ok [mkF None 12%N [] [] []] /\
   flat_list frags' 10 (f_sels F) = Ok [mkF None 12%N [] [] []; mkF None 13%N [] [] []] /\
   la_field frags' 10 12%N [F] = Ok [mkF None 12%N [] [] []] /\
   la_field frags' 10 11%N [F] = Ok [] /\
   view_args ex_vars ex_vdefs (f_args F) = Ok [(40%N, VInt 5)].
 Proof. exact c22_nonvacuous. Qed.
 
-Check C22_complete : forall vars vdefs frags impls F n st rt c,
+Check C22_complete : forall vars vdefs frags cond F n st rt c,
   let frags' := prune_frags vars frags in
-  collect_list frags' impls n st rt (f_sels F) = Ok c ->
+  collect_list frags' cond n st rt (f_sels F) = Ok c ->
   (forall m v, flat_list frags' m (f_sels F) = Ok v -> sublist c v) /\
   (forall g, In g c ->
      (forall m r, la_field frags' m (f_name g) [F] = Ok r -> In g r /\ la_exists r = true) /\
